@@ -203,7 +203,7 @@ class Ctx:
                 perm = list(cases)
                 random.Random(self.seed * 7919 + k).shuffle(perm)
                 np2 = max(1, (nproc or NPROC) // 2 + k)
-                recs2 = self._execute_raw(driver, perm, np2, timeout, "%s_o%d" % (fresh_label, k))
+                recs2 = self._execute_raw(driver, perm, np2, timeout, "%s_o%d" % (fresh_label, k), warm=True)
                 key = "%s#%d#%d" % (driver, base, k)
                 self.passes[key] = (driver, perm, np2)
                 again = {}
@@ -239,14 +239,14 @@ class Ctx:
                 return chunk[:chunk.index(cid) + 1]
         return [cid]
 
-    def _execute_raw(self, driver, cases, nproc=None, timeout=3000, label="exec"):
+    def _execute_raw(self, driver, cases, nproc=None, timeout=3000, label="exec", warm=False):
         nproc = max(1, min(nproc or NPROC, (len(cases) + 49) // 50 or 1))
         chunks = [cases[i::nproc] for i in range(nproc)]
         tag = self.tag(label)
         procs = []
         env = dict(os.environ)
         env.update(PYTHONHASHSEED="0", MINGUS_REPO=self.repo, MINGUS_VERIF="1", PYTHONDONTWRITEBYTECODE="1",
-                   VERIF_SEED=str(self.seed), VERIF_TIER=self.tier)
+                   VERIF_SEED=str(self.seed), VERIF_TIER=self.tier, VERIF_WARMUP="1" if warm else "0")
         for k, ch in enumerate(chunks):
             cin = os.path.join(self.work, "%s_%d.in.ndjson" % (tag, k))
             cout = os.path.join(self.work, "%s_%d.out.ndjson" % (tag, k))
@@ -533,7 +533,7 @@ def finish(ctx, level_note_assumptions=()):
             for pk, want in sorted(by_pass.items()):
                 pdrv, perm, np2 = ctx.passes[pk]
                 want = set(sorted(want)[:200])
-                recs3 = [r for r in ctx._execute_raw(pdrv, perm, np2, label="reexec_order") if r["cid"] in want]
+                recs3 = [r for r in ctx._execute_raw(pdrv, perm, np2, label="reexec_order", warm=pk.endswith("#2")) if r["cid"] in want]
                 bad3 = ctx._validate_raw(module, recs3, cfg, env=venv)
                 for rec, clause in bad3:
                     rec.setdefault("_x", {})["pass"] = pk
